@@ -4,7 +4,10 @@ Open Scope R_scope.
 
 Definition cos2ramp_R (m j : R) : R := Rsqr (sin (PI * j / m)).
 
-Lemma cos2ramp_unit_interval : forall m j : R, 0 <= cos2ramp_R m j <= 1.
+(* the statement, named so that Props/C09.v (a Z-scoped file) can state it without importing Reals *)
+Definition cos2ramp_within_unit_interval : Prop := forall m j : R, 0 <= cos2ramp_R m j <= 1.
+
+Lemma cos2ramp_unit_interval : cos2ramp_within_unit_interval.
 Proof.
   intros m j. unfold cos2ramp_R, Rsqr.
   pose proof (SIN_bound (PI * j / m)) as [H1 H2].
